@@ -98,7 +98,7 @@ class AllFieldsRequiredMeta(type):
         cls_dict[REQUIRED_FIELDS] = []
         for k, v in clazz.get_all_fields_by_name().items():
             cls_dict[k] = v
-            if getattr(v, "_default") is None:
+            if getattr(v, "_default", None) is None:
                 cls_dict[REQUIRED_FIELDS].append(k)
 
         newclass = type(classname, (Structure,), cls_dict)
